@@ -30,6 +30,8 @@ pub fn profile() -> Profile {
         no_fall_off: true,
         rich_choice_text: true,
         no_tags_in_functions: true,
+        nested_inline: true,
+        max_depth: 3,
         ..Profile::default()
     }
 }
